@@ -7,7 +7,7 @@ from harness import worlds
 
 PROP = "C13"
 LEAN_MODULE = "Ztr.Props.C13"
-THEOREMS = []
+THEOREMS = ['Ztr.Result.C13_restored_between_tests', 'Ztr.Result.C13_never_replaced', 'Ztr.Result.C13_quiet_when_ok']
 RULE = ("worlds whose tests write unique tokens to sys.stdout / sys.stderr / .buffer, with and without trailing "
         "newline, in every phase; all 17 outcome kinds incl. tests producing several result events, in random "
         "sequences; --buffer on and off; layer testSetUp/testTearDown hooks record whether the std streams are the "
@@ -85,6 +85,24 @@ def make_monitor(ctx):
     return monitor
 
 
+def tokens_vs_model(ctx, c):
+    """the set of tokens that reach the output (raw or inside a report) must be the model's"""
+    if not c.opts.get("buffer"):
+        return
+    shown = set()
+    for m in [c.parent_model] + list(c.child_models.values()):
+        for e in m["trace"]:
+            if e[0] == "leak":
+                shown.add(e[2])
+            elif e[0] == "report":
+                shown.update(e[3])
+    text = c.obs.stdout + c.obs.stderr
+    real = {int(x) for x in re.findall(r"TOK(\d+)K", text)}
+    if real != shown:
+        ctx.drift("runner.streams.tokens", "tokens shown by the real run %r, by the model %r" % (
+            sorted(real ^ shown), "symmetric difference"), c.replay_obj())
+
+
 def gen_cases(ctx):
     rng = ctx.rng
     n = 80 if ctx.quick() else 2000
@@ -101,11 +119,11 @@ def gen_cases(ctx):
 
 
 def run(ctx):
-    cw.standard_check(ctx, gen_cases(ctx), PROP, KINDS, "runner.streams", make_monitor(ctx))
+    cw.standard_check(ctx, gen_cases(ctx), PROP, KINDS, "runner.streams", make_monitor(ctx), extra=tokens_vs_model)
 
 
 def replay(ctx, obj):
     c = cw.replay_case(obj)
     if c is None:
         return run(ctx)
-    cw.standard_check(ctx, [c], PROP, KINDS, "runner.streams", make_monitor(ctx))
+    cw.standard_check(ctx, [c], PROP, KINDS, "runner.streams", make_monitor(ctx), extra=tokens_vs_model)
